@@ -176,6 +176,12 @@ pub fn add_probe_members(g: &mut GenIdl, rng: &mut Rng) {
     g.idl.members.push(Member { kind: MKind::Method, name: "ProbeAllOptional".into(), comments: vec![], a: Ty::Struct(opts), b: Some(Ty::Struct(vec![("n".into(), Ty::Int)])) });
     g.idl.members.push(Member { kind: MKind::Error, name: "ErrA".into(), comments: vec![], a: Ty::Struct(vec![("why".into(), Ty::Str)]), b: None });
     g.idl.members.push(Member { kind: MKind::Error, name: "ErrB".into(), comments: vec![], a: Ty::Struct(vec![("code".into(), Ty::Int), ("why".into(), Ty::Opt(Box::new(Ty::Str)))]), b: None });
+    // declared errors whose member name equals one of org.varlink.service's: an error is
+    // identified by its full name, so these must arrive as their own variants
+    if !has(g, "InterfaceNotFound") && !has(g, "MethodNotImplemented") {
+        g.idl.members.push(Member { kind: MKind::Error, name: "InterfaceNotFound".into(), comments: vec![], a: Ty::Struct(vec![("hint".into(), Ty::Opt(Box::new(Ty::Str)))]), b: None });
+        g.idl.members.push(Member { kind: MKind::Error, name: "MethodNotImplemented".into(), comments: vec![], a: Ty::Struct(vec![("why".into(), Ty::Str)]), b: None });
+    }
     let level = rng.below(2);
     g.text = render(&g.idl, rng, level);
 }
